@@ -745,8 +745,11 @@ func compareVerbose(r *mc.Run, pool *mc.Pool, f *fn, src, goOut, waOut, waStatus
 		} else if waStatus == "crash" {
 			what = "takes the engine process down (" + waErr + ")"
 			cls = "engine-crash"
+		} else if waStatus == "ok" {
+			what = "prints nothing for this tuple although the case returns"
+			cls = "short-output"
 		}
-		if waStatus != "trap" {
+		if waStatus == "hang" || waStatus == "crash" {
 			// a verdict that rests on a horizon or on a dead process: 5 more runs of this tuple alone
 			same := 0
 			for k := 0; k < 5; k++ {
